@@ -72,6 +72,7 @@ mut("C16", "weight_not_trimmed", "C16.R2", [(L, "                let Some(q) = q
 mut("C05", "gate_uses_weak", "C05.R2", [(S, "if etag::strong_eq(if_range, some_etag.as_bytes()) {", "if etag::weak_eq(if_range, some_etag.as_bytes()) {")])
 mut("C05", "date_if_range_keeps_range", "C05.R1", [(S, "                // The resource could have changed twice in the supplied second, so never match.\n                range_hdr = None;\n                true", "                // The resource could have changed twice in the supplied second, so never match.\n                true")])
 mut("C05", "no_etag_keeps_range", "C05.R1", [(S, "                } else {\n                    range_hdr = None;\n                    true\n                }\n            } else {\n                // Date case.", "                } else {\n                    true\n                }\n            } else {\n                // Date case.")])
+mut("C05", "sweep_etag_form_and", "C05.R1", [(S, 'if if_range.starts_with(b"W/\\"") || if_range.starts_with(b"\\"") {', 'if if_range.starts_with(b"W/\\"") && if_range.starts_with(b"\\"") {')])
 # ---------------- C06
 mut("C06", "trailer_boundary_C", "C06.R2", [(S, 'const PART_TRAILER: &[u8] = b"\\r\\n--B--\\r\\n";', 'const PART_TRAILER: &[u8] = b"\\r\\n--C--\\r\\n";')])
 mut("C06", "entity_headers_only_with_if_range", "C06.R4", [(S, "let each_part_hdrs = include_entity_headers_on_range.then(|| {", "let each_part_hdrs = (!include_entity_headers_on_range).then(|| {")])
